@@ -24,7 +24,8 @@ What is read from the tree under test, and the only shapes accepted (anything el
   _app_stream._run_stream_exchange_sync   the try statement whose body calls ``ipc.open_stream``: ordered (classes, status)
   _state_token.py, _app_stream._unpack_and_recover_state / _resolve_call_from_token / the exchange shell
                              the status of every ``_RpcHttpError(...)`` there that is not under one of the tries above
-  rpc/_wire._read_request    whether ``tp.decode()`` sits in a try whose UnicodeDecodeError handler raises RpcError
+  rpc/_wire._read_request / _decode_request   whether ``tp.decode()`` sits in a try whose UnicodeDecodeError handler raises RpcError,
+                             on the path the HTTP shells take (no contain_decode_errors)
 """
 from __future__ import annotations
 
@@ -358,10 +359,46 @@ def token_statuses(repo: Path) -> list[int]:
 
 
 def traceparent_guarded(repo: Path) -> bool:
+    """Is an undecodable trace context turned into RpcError on the path the HTTP shells take through _read_request?
+
+    Accepted: the trace-context block lives in ``_read_request`` itself, or in ``_decode_request`` which ``_read_request``
+    returns directly under ``if not contain_decode_errors:`` (default False) -- and then the HTTP shells must not pass
+    ``contain_decode_errors`` (they call ``_read_request`` with positional arguments only), so the containment wrapper
+    (which would change the exception classes) is not on their path.
+    """
     p = repo / "vgi_rpc/rpc/_wire.py"
+    tree = _parse(p)
     site = f"{p}:_read_request"
-    fn = _func(_parse(p), "_read_request", site)
+    fn = _func(tree, "_read_request", site)
+    holder = fn
     blocks = [n for n in ast.walk(fn) if isinstance(n, ast.If) and ast.unparse(n.test) == "tp is not None"]
+    if not blocks:
+        # split shape: everything after the drain is in _decode_request
+        args = fn.args
+        names = [a.arg for a in args.args + args.kwonlyargs]
+        defaults = dict(zip([a.arg for a in args.args][len(args.args) - len(args.defaults):], args.defaults))
+        defaults.update({a.arg: d for a, d in zip(args.kwonlyargs, args.kw_defaults) if d is not None})
+        if "contain_decode_errors" not in names or ast.unparse(defaults.get("contain_decode_errors", ast.Constant(None))) != "False":
+            raise TranslationBroken(site, "no trace-context block and no `contain_decode_errors=False` parameter")
+        direct = [n for n in fn.body if isinstance(n, ast.If) and ast.unparse(n.test) == "not contain_decode_errors"]
+        if not (len(direct) == 1 and len(direct[0].body) == 1 and isinstance(direct[0].body[0], ast.Return)
+                and ast.unparse(direct[0].body[0].value or ast.Constant(None)).startswith("_decode_request(") and not direct[0].orelse):
+            raise TranslationBroken(site, "`if not contain_decode_errors: return _decode_request(...)` not found at the top level")
+        # nothing between the drain and that return may raise or catch: only the reader statements precede it
+        before = [ast.unparse(s) for s in fn.body[: fn.body.index(direct[0])] if not (isinstance(s, ast.Expr) and isinstance(s.value, ast.Constant))]
+        if not (len(before) == 3 and before[0].startswith("reader = ValidatedReader(ipc.open_stream(reader_stream)")
+                and "read_next_batch_with_custom_metadata()" in before[1] and before[2] == "_drain_stream(reader)"):
+            raise TranslationBroken(site, f"unexpected statements before the decode step: {before}")
+        for rel, fnames in (("vgi_rpc/http/server/_app_unary.py", ["_run_unary_sync"]), ("vgi_rpc/http/server/_app_stream.py", ["_run_stream_init_sync"])):
+            t2 = _parse(repo / rel)
+            for fname in fnames:
+                f2 = _func(t2, fname, f"{rel}:{fname}")
+                calls = [n for n in ast.walk(f2) if isinstance(n, ast.Call) and ast.unparse(n.func) == "_read_request"]
+                if len(calls) != 1 or calls[0].keywords or len(calls[0].args) != 3:
+                    raise TranslationBroken(f"{rel}:{fname}", "_read_request is not called exactly once with three positional arguments")
+        site = f"{p}:_decode_request"
+        holder = _func(tree, "_decode_request", site)
+        blocks = [n for n in ast.walk(holder) if isinstance(n, ast.If) and ast.unparse(n.test) == "tp is not None"]
     if len(blocks) != 1:
         raise TranslationBroken(site, "`if tp is not None:` not found exactly once")
     blk = blocks[0]
